@@ -193,8 +193,44 @@ SCHEMAS = {
 }
 
 
+# "utest2c": the repository's FIX42UTEST schema (same prefix and namespace, so harnesses compile
+# unchanged) plus a few APPLICATION messages with two-character MsgTypes whose first character
+# is that of an administrative type (FIX 4.3+ has such types: AD, AE, ...; FIX42UTEST has
+# none).  Derived from /repo's current XML on every run.
+UTEST2C_MESSAGES = [("TwoCharA0", "A0"), ("TwoCharAD", "AD"), ("TwoChar0X", "0X"), ("TwoChar1Z", "1Z"),
+                    ("TwoChar2B", "2B"), ("TwoChar3C", "3C"), ("TwoChar4D", "4D"), ("TwoChar5E", "5E"),
+                    ("TwoCharDD", "DD"), ("TwoCharZZ", "ZZ")]
+
+
+def _derive_utest2c():
+    src = read(os.path.join(REPO, "schema/FIX42UTEST.xml"))
+    extra = b"".join(("  <message name='%s' msgcat='app' msgtype='%s'>\n   <field name='ClOrdID' required='Y' />\n"
+                      "   <field name='Text' required='N' />\n  </message>\n" % (n, t)).encode()
+                     for n, t in UTEST2C_MESSAGES)
+    assert src.count(b"</messages>") == 1
+    out = src.replace(b"</messages>", extra + b" </messages>", 1)
+    realm_head = b"<field number='35' name='MsgType' type='STRING'>\n"
+    assert out.count(realm_head) == 1
+    vals = b"".join(("   <value enum='%s' description='%s' />\n" % (t, n.upper())).encode() for n, t in UTEST2C_MESSAGES)
+    out = out.replace(realm_head, realm_head + vals, 1)
+    d = os.path.join(CACHE, "gen-src")
+    os.makedirs(d, exist_ok=True)
+    path = os.path.join(d, "FIX42UTEST2C-%s.xml" % sha(out)[:16])
+    if not os.path.exists(path):
+        tmp = path + ".%d" % os.getpid()
+        open(tmp, "wb").write(out)
+        os.replace(tmp, path)
+    return path
+
+
+DERIVED_SCHEMAS = {"utest2c": (_derive_utest2c, "utest", "UTEST", ["-F", UTEST_EXTRA_FIELDS])}
+
+
 def gen_schema(name="utest", xml_path=None, prefix=None, ns=None, extra_args=None):
     """Run the fresh f8c on a schema; returns (dir, [generated .cpp], prefix, ns)."""
+    if xml_path is None and name in DERIVED_SCHEMAS:
+        fn, prefix, ns, extra_args = DERIVED_SCHEMAS[name]
+        xml_path = fn()
     if xml_path is None:
         rel, prefix, ns, extra_args = SCHEMAS[name]
         xml_path = os.path.join(REPO, rel)
@@ -212,7 +248,9 @@ def gen_schema(name="utest", xml_path=None, prefix=None, ns=None, extra_args=Non
                 # uses for FIX42UTEST, which has no components; schemas with components (FIX44)
                 # need the precompiler or their component-only groups come out empty
                 has_comp = b"<component" in read(xml_path)
-                run([exe, "-Vp" if has_comp else "-sVp", prefix, "-n", ns, xml_path] + extra_args, cwd=d, timeout=600)
+                rc, out = run([exe, "-Vp" if has_comp else "-sVp", prefix, "-n", ns, xml_path] + extra_args, cwd=d, timeout=600)
+                if not glob.glob(os.path.join(d, "*.cpp")):	# f8c exits 0 after reporting schema errors
+                    raise BuildError("f8c generated nothing for %s:\n%s" % (xml_path, out[-4000:]))
                 open(done, "w").write("ok")
     cpps = sorted(glob.glob(os.path.join(d, "*.cpp")))
     return d, cpps, prefix, ns
